@@ -108,8 +108,10 @@ class ModuleValidator:
                 # get a replacement for sub_module
                 sub_module_fixer = ModuleValidator.FIXERS[type(sub_module)]
                 new_sub_module = sub_module_fixer(sub_module, **kwargs)
-                # move new_sub_module to the same device as that of sub_module
-                new_sub_module.to(next(sub_module.parameters()).device)
+                # the replacement takes over device, dtype and train / eval mode of sub_module
+                reference = next(sub_module.parameters())
+                new_sub_module.to(device=reference.device, dtype=reference.dtype)
+                new_sub_module.train(sub_module.training)
                 # get module after replacement.
                 module = cls._replace_sub_module(
                     root=module,
